@@ -171,7 +171,7 @@ func cmdCheck(args []string) {
 	nTwins := 0
 	for _, tw := range twins {
 		nTwins++
-		if tw.Status == "unsat" {
+		if tw.Status == "unsat" && !funcHasFailure(all, tw.TwinOf.Func) {
 			fmt.Printf("CHECK-ERROR %s: vacuous proof: the obligation stays provable with an unconstrained conjunct added (contradictory assumptions)\n", tw.TwinOf.Name)
 			broken++
 		}
@@ -195,11 +195,20 @@ func cmdCheck(args []string) {
 	var violLines, knownLines []string
 	seenKnown := map[string]bool{}
 	sort.SliceStable(all, func(i, j int) bool { return all[i].Name < all[j].Name })
+	// functions with an undischarged obligation: because a checked condition is
+	// assumed afterwards, a failing check can make the rest of the function
+	// unreachable; that is reported as the violation, not as a vacuity error
+	failedFunc := map[string]bool{}
+	for _, o := range all {
+		if !o.ExpectSat && o.Status != "unsat" {
+			failedFunc[o.Func] = true
+		}
+	}
 	for _, o := range all {
 		solverMs += o.Ms
 		if o.ExpectSat {
 			nVac++
-			if o.Status == "unsat" {
+			if o.Status == "unsat" && !failedFunc[o.Func] {
 				fmt.Printf("CHECK-ERROR %s: vacuity probe failed (contract is contradictory or exit unreachable)\n", o.Name)
 				broken++
 			}
@@ -457,4 +466,14 @@ func modelWithoutQuantifiers(o *Obligation, work string, seed int) (string, bool
 		return r.output, true
 	}
 	return "", false
+}
+
+
+func funcHasFailure(all []*Obligation, fn string) bool {
+	for _, o := range all {
+		if o.Func == fn && !o.ExpectSat && o.Status != "unsat" {
+			return true
+		}
+	}
+	return false
 }
